@@ -3,7 +3,10 @@
 use super::cfb;
 use serde_json::Value;
 
-pub const PAT: [u8; 3] = [b'a', b'b', b'c'];
+/// the periodic source pattern.  Two high bytes that are (a) different characters in every code page
+/// used (1252: "Ã©", 1251: "Г©", 932: two half-width katakana) and (b) together a valid UTF-8
+/// sequence ("é"), so that a text decoded with the wrong code page -- or sniffed as UTF-8 -- differs
+pub const PAT: [u8; 3] = [0xC3, 0xA9, b'a'];
 
 /// decompressed content of one chunk: periodic with the given period, restarting at the chunk start
 pub fn chunk_source(period: usize, len: usize) -> Vec<u8> {
